@@ -91,6 +91,42 @@ def terms(tier):
     return out + d2
 
 
+# ---- un-parenthesised chains: a || b || c (|| d), a && b && c (&& d) and the mixed forms, printed flat --------------
+# The grammar nests them to the left; an evaluator is free to walk such a chain with a loop, and must then still
+# absorb two adjacent errors before a deciding operand.
+CHAIN_LEAVES = [l for l in LEAVES if l[0] in ("T", "F", "E[ZeroDivisionError]", "E[IndexError]", "N[1]", "N[0]")]
+
+
+def chain_terms():
+    """(tree, flat text) pairs"""
+    import itertools
+    lv = [leaf(l) for l in CHAIN_LEAVES]
+    out = []
+    for op, sym in (("or", "||"), ("and", "&&")):
+        for n in (3, 4):
+            for combo in itertools.product(lv, repeat=n):
+                t = combo[0]
+                for x in combo[1:]:
+                    t = (op, t, x)
+                out.append((t, f" {sym} ".join(text(x) for x in combo)))
+    for a, b, c in itertools.product(lv, repeat=3):
+        out.append((("or", a, ("and", b, c)), f"{text(a)} || {text(b)} && {text(c)}"))
+        out.append((("or", ("and", a, b), c), f"{text(a)} && {text(b)} || {text(c)}"))
+        out.append((("cond", a, b, ("or", c, a)), f"{text(a)} ? {text(b)} : {text(c)} || {text(a)}"))
+    return out
+
+
+def chain_shard(task):
+    rk, lo, hi = task
+    part = runner.Part()
+    ts = chain_terms()[lo:hi]
+    for t, e in ts:
+        o = celrun.evaluate(rk, e)
+        judge(part, f"chain{rk}", t, abstract(o), e)
+    part.space(f"flat chains:{rk}", 0, len(ts))
+    return part
+
+
 def abstract(o):
     """Implementation outcome -> abstract outcome (X stays as is)."""
     if o[0] == "E":
@@ -271,6 +307,9 @@ def run(ctx):
     for rk in ("I", "C"):
         ctx.run_shards(expr_shard, [(rk, lo, hi, ctx.tier) for lo, hi in runner.shards(len(ts), 32)])
         ctx.part.spaces[f"terms:{rk}"]["cardinality"] = len(ts)
+        nch = len(chain_terms())
+        ctx.run_shards(chain_shard, [(rk, lo, hi) for lo, hi in runner.shards(nch, 16)])
+        ctx.part.spaces[f"flat chains:{rk}"]["cardinality"] = nch
         ctx.run_shards(macro_shard, [(rk, 4 if not ctx.thorough else 5)])
         ctx.run_shards(commut_shard, [(rk, ctx.tier)])
     ctx.run_shards(direct_shard, [None])
@@ -279,6 +318,7 @@ def run(ctx):
     ctx.part.sample({"macro_families": [p for p, _e in FAMILIES]})
     ctx.rule = ("every term over {!, &&, ||, ?:} with <= 2 operator levels: level 1 over 22 leaves (true, false, one error leaf per failing mechanism x12, four non-boolean values incl. 0 and "", four operands selected as a field of a parenthesised conditional/logical/macro), "
                 "level 2 over level-<=1 terms on the reduced leaf set {T, F, E, N}" + (" including all ternary roots" if ctx.thorough else " (ternary roots with a reduced branch set)") +
+                "; every un-parenthesised chain a || b || c (|| d), a && b && c (&& d) and the mixed forms a || b && c, a && b || c, a ? b : c || a over six leaves (T, F, two different errors, two non-booleans), judged as the left-nested tree the grammar gives"
                 "; every {T,F,E} list of length <= " + ("5" if ctx.thorough else "4") + " under four predicate families for all()/exists(), and every list over {T,F,E,falsy non-boolean,truthy non-boolean} of that length holding a non-boolean; the swap differential on every pair; each under both runners, "
                 "level 1 also through celtypes.logical_*; a case whose reference outcome is UNSPEC (e.g. true && 1, !1) is counted but not compared")
     ctx.assumptions = ["nesting deeper than two operator levels is not explored", "host-function error leaves are C14's"]
